@@ -552,6 +552,18 @@ Definition wf_strict (v : view) : bool :=
   | c0 :: _ => strict_means (v_cs v) && qle (v_min v) (c_mean c0) && qle (c_mean (last (v_cs v) c0)) (v_max v)
   end.
 
+Fixpoint sorted_means (cs : list centroid) : bool :=
+  match cs with
+  | a :: ((b :: _) as r) => qle (c_mean a) (c_mean b) && sorted_means r
+  | _ => true
+  end.
+(* well-formed, means possibly shared: the hypotheses of c10_rank_quantile_consistent_any_means *)
+Definition wf_sorted (v : view) : bool :=
+  match v_cs v with
+  | [] => false
+  | c0 :: _ => sorted_means (v_cs v) && qle (v_min v) (c_mean c0) && qle (c_mean (last (v_cs v) c0)) (v_max v)
+  end.
+
 Definition RQ_SLACK : Q := (1 # 10000000)%Q.
 (* | rank (quantile q) - q | <= resolution v q  (Props/C10.v: c10_rank_quantile_consistent), on the crate's floats *)
 Fixpoint rq_bound_ok (v : view) (qs : list Q) (obs : list Z) : bool :=
@@ -559,6 +571,16 @@ Fixpoint rq_bound_ok (v : view) (qs : list Q) (obs : list Z) : bool :=
   | q :: qr, _ :: rb :: obr =>
       match Q_of_bits rb with
       | Some r => Qle_bool (Qabs (r - q)) (resolution v q + RQ_SLACK)%Q && rq_bound_ok v qr obr
+      | None => false
+      end
+  | _, _ => true
+  end.
+
+Fixpoint rq_block_bound_ok (v : view) (qs : list Q) (obs : list Z) : bool :=
+  match qs, obs with
+  | q :: qr, _ :: rb :: obr =>
+      match Q_of_bits rb with
+      | Some r => Qle_bool (Qabs (r - q)) (block_resolution v q + RQ_SLACK)%Q && rq_block_bound_ok v qr obr
       | None => false
       end
   | _, _ => true
@@ -636,7 +658,8 @@ Definition prop_step (st : sslots) (mem : pmem) (o : zop) (ob : list Z) : pmem *
               if forallb in01 qs && negb (sp_n s =? 0)
               then (mem, negb is_panic && rq_pairs_ok s qs ob &&
                          match vget mem slot with
-                         | Some v => if wf_strict v then rq_bound_ok v qs ob else true
+                         | Some v => if wf_strict v then rq_bound_ok v qs ob
+                                     else if wf_sorted v then rq_block_bound_ok v qs ob else true
                          | None => true
                          end)
               else (mem, true)
